@@ -55,7 +55,7 @@ fn check_vendor_comment(i: &[u8], l: usize) -> EntryParseStage {
     } else if i[l..].starts_with(b"/vendor") {
         //make sure vendor name is present
         if i.len() < l + 9 || i[l + 7] != b'/' || !is_entry_component_char(i[l + 8]) {
-            EntryParseStage::Fail(nom::Err::Incomplete(nom::Needed::Unknown))
+            EntryParseStage::Fail(nom::Err::Error(b"Vendor name is missing"))
         } else {
             EntryParseStage::Path(l + 7)
         }
